@@ -508,7 +508,7 @@ def compare_history(machine, m, history, n_requests, timed=False, request_instan
         if extra:
             probs.append({"what": "events the reference semantics does not have", "events": sorted(extra.elements())[:4]})
         return "fanfail", probs, len(sel)
-    if cut_in_fan:
+    if cut_in_fan and end == dl:
         at_end = lambda e: e[3] == end and not e[0].startswith("Execution")
         if any(at_end(e) and e[0] != "LambdaFunctionTimedOut" for e in mine):
             return "skipped.tie_at_deadline", [], 0
